@@ -2,6 +2,7 @@
    over-distributed; exact claims.  Property theorems only; proofs are in
    Proofs/Incentive.v.  Units: index and share values are 18-decimal
    mantissas, so index * shares is in units of 10^-36 (PREC * PREC). *)
+From Coq Require Import Permutation.
 From Kava Require Import Base.Prelude Base.Dec Model.Accumulator Model.Incentive Proofs.Incentive.
 Local Open Scope Z_scope.
 
@@ -25,11 +26,13 @@ Print Assumptions C09_initial_state_invariant.
    blocks, position changes of any user in any pool, claims), for every user
    and reward denom: what has been synchronised so far (unrounded) plus what
    is still unsynchronised equals the sum over all accumulations of
-   (index increment) * (shares the user held at that accumulation). *)
+   (index increment) * (shares the user held at that accumulation), plus the
+   drift of the user's revalues (zero when the source never moves a user's
+   shares without calling the hook: C09_no_revalue_no_drift). *)
 Theorem C09_integral_exact :
   forall e t0 m0 gt0 tot0 ops u d, env_wf e -> (forall p x, gt0 p = Some x -> x <= t0) -> (forall p, 0 <= tot0 p) ->
   let st := run e (init t0 m0 gt0 tot0) ops in
-  due st u d + phi e st u d = integral st u d.
+  due st u d + phi e st u d = integral st u d + drift st u d.
 Proof.
   intros e t0 m0 gt0 tot0 ops u d W G GT st.
   apply (I_exact e st). apply run_inv; [exact W|apply init_inv; assumption].
@@ -43,7 +46,7 @@ Print Assumptions C09_integral_exact.
 Theorem C09_reward_is_integral :
   forall e t0 m0 gt0 tot0 ops u d, env_wf e -> (forall p x, gt0 p = Some x -> x <= t0) -> (forall p, 0 <= tot0 p) ->
   let st := run e (init t0 m0 gt0 tot0) ops in
-  2 * Z.abs ((pending e st u d + claimed st u d) * (PREC * PREC) - integral st u d)
+  2 * Z.abs ((pending e st u d + claimed st u d) * (PREC * PREC) - (integral st u d + drift st u d))
   <= (nsync st u d + Z.of_nat (npools e)) * (PREC * PREC + PREC).
 Proof.
   intros e t0 m0 gt0 tot0 ops u d W G GT st.
@@ -51,10 +54,10 @@ Proof.
 Qed.
 Print Assumptions C09_reward_is_integral.
 
-(* what the history variable [integral] is: it moves only in a block, by
-   (increment of the global index of the pool) * (the user's shares in the pool),
-   summed over the pools; [emitted] moves only in a block, by the pools' rate *
-   whole seconds *)
+(* what the history variable [integral] is: it moves only when time is accumulated
+   (a block, a bkava accumulation), by (increment of the global index of the pool) *
+   (the user's shares in the pool), summed over the pools; [emitted] moves only in
+   a block, by the pools' rate * whole seconds *)
 Theorem C09_integral_meaning :
   forall e st o st' u d, step e st o = Ok st' tt ->
   integral st' u d = integral st u d
@@ -94,12 +97,12 @@ Print Assumptions C09_whole_seconds_round_half_even.
 (** ** A position change never alters accrued rewards *)
 
 (* what GetSynchronizedClaim reports for user u in denom d is unchanged by every
-   operation other than a block or u's own claim: another user's position
-   change or claim, u's own position change (in any pool), a change of a
-   total, a trade. *)
+   operation other than an accumulation, u's own claim or u's own revalue:
+   another user's position change, claim or revalue, u's own position change
+   (in any pool), a change of a total, a trade. *)
 Theorem C09_pending_only_moves_on_accumulate :
   forall e st o st' u d, Inv e st -> step e st o = Ok st' tt ->
-  match o with Block _ => False | Claim v _ _ => v <> u | _ => True end ->
+  match o with Block _ | BkAcc _ _ _ _ _ => False | Claim v _ _ | Revalue v _ _ => v <> u | _ => True end ->
   pending e st' u d = pending e st u d.
 Proof. exact pending_preserved. Qed.
 Print Assumptions C09_pending_only_moves_on_accumulate.
@@ -127,10 +130,63 @@ Theorem C09_no_over_distribution :
   sides_ok e (init t0 m0 gt0 tot0) ops ->
   let st := run e (init t0 m0 gt0 tot0) ops in
   2 * sumN (nusers e) (fun u => pending e st u d + claimed st u d) * (PREC * PREC)
-  <= 2 * emitted st d * (PREC * PREC) + accslack st d
+  <= 2 * emitted st d * (PREC * PREC) + 2 * emitted_x st d * PREC + accslack st d
+     + 2 * sumN (nusers e) (fun u => drift st u d)
      + sumN (nusers e) (fun u => nsync st u d + Z.of_nat (npools e)) * (PREC * PREC + PREC).
 Proof. exact no_over_distribution. Qed.
 Print Assumptions C09_no_over_distribution.
+
+(* ... and without any side-condition, for EVERY history: the bound carries the
+   explicit term [overshare] = sum over the accumulations of (index increment) *
+   max(0, sum of the users' shares - total the accumulation divided by).  This is
+   the exact price of a source whose recorded shares add up to more than its
+   recorded total (normalised amounts under interest rounding). *)
+Theorem C09_no_over_distribution_all :
+  forall e t0 m0 gt0 tot0 ops d,
+  env_wf e -> (forall p x, gt0 p = Some x -> x <= t0) -> (forall p, 0 <= tot0 p) ->
+  let st := run e (init t0 m0 gt0 tot0) ops in
+  2 * sumN (nusers e) (fun u => pending e st u d + claimed st u d) * (PREC * PREC)
+  <= 2 * emitted st d * (PREC * PREC) + 2 * emitted_x st d * PREC + accslack st d
+     + 2 * overshare st d + 2 * sumN (nusers e) (fun u => drift st u d)
+     + sumN (nusers e) (fun u => nsync st u d + Z.of_nat (npools e)) * (PREC * PREC + PREC).
+Proof. exact no_over_distribution_all. Qed.
+Print Assumptions C09_no_over_distribution_all.
+
+(* [emitted_x] (Dec mantissa) is the emission of the bkava accumulations only *)
+Theorem C09_no_bkava_no_emitted_x :
+  forall e ops st d, forallb (fun o => negb (is_bkacc o)) ops = true ->
+  emitted_x (run e st ops) d = emitted_x st d.
+Proof. intros e ops st d. exact (run_no_bkacc e ops st d). Qed.
+Print Assumptions C09_no_bkava_no_emitted_x.
+
+(* what [overshare] is: it moves only when time is accumulated, by (index increment) *
+   max(0, sum of the users' shares - pool total) *)
+Theorem C09_overshare_meaning :
+  forall e st o st' d, Inv e st -> step e st o = Ok st' tt ->
+  overshare st' d = overshare st d
+    + match o with
+      | Block t => sumN (npools e) (fun p => (g_idx st' p d - g_idx st p d) * excess e st p)
+      | BkAcc p _ _ _ _ => (g_idx st' p d - g_idx st p d) * excess e st p
+      | _ => 0
+      end.
+Proof. exact overshare_step. Qed.
+Print Assumptions C09_overshare_meaning.
+
+(* it stays zero along every history whose accumulations see sum of shares <= total:
+   the sources with exact totals (swap, earn, cdp while the interest factor stays 1:
+   next theorem) and those whose total covers the shares (delegator, hard while the
+   interest factors stay 1; checked by the monitors on every step) satisfy the bound
+   exactly as the property words it *)
+Theorem C09_overshare_zero_when_shares_within_total :
+  forall e t0 m0 gt0 tot0 ops d,
+  env_wf e -> (forall p x, gt0 p = Some x -> x <= t0) -> (forall p, 0 <= tot0 p) ->
+  sides_ok e (init t0 m0 gt0 tot0) ops ->
+  overshare (run e (init t0 m0 gt0 tot0) ops) d = 0.
+Proof.
+  intros e t0 m0 gt0 tot0 ops d W G GT S.
+  rewrite (run_overshare e ops (init t0 m0 gt0 tot0) d W (init_inv e t0 m0 gt0 tot0 G GT) S). reflexivity.
+Qed.
+Print Assumptions C09_overshare_zero_when_shares_within_total.
 
 (* swap (total = sum of the share records, maintained by the source): the
    side-condition holds by construction *)
@@ -146,7 +202,8 @@ Theorem C09_no_over_distribution_needs_side_condition_refuted :
   env_wf e /\ (forall p x, gt0 p = Some x -> x <= t0) /\ (forall p, 0 <= tot0 p) /\
   let st := run e (init t0 m0 gt0 tot0) ops in
   2 * sumN (nusers e) (fun u => pending e st u d + claimed st u d) * (PREC * PREC)
-  > 2 * emitted st d * (PREC * PREC) + accslack st d
+  > 2 * emitted st d * (PREC * PREC) + 2 * emitted_x st d * PREC + accslack st d
+     + 2 * sumN (nusers e) (fun u => drift st u d)
      + sumN (nusers e) (fun u => nsync st u d + Z.of_nat (npools e)) * (PREC * PREC + PREC).
 Proof.
   exists (mk_env 1 1 1 [Some (mk_period 0 1000000000000 [1000])] 1000000000000 false), 0,
@@ -162,6 +219,215 @@ Proof.
   - vm_compute. reflexivity.
 Qed.
 Print Assumptions C09_no_over_distribution_needs_side_condition_refuted.
+
+(* KNOWN FINDING (known_findings.json, total-credited-exceeds-emission-share-total-drift):
+   the bound exactly as the property words it (emission + roundings, nothing else) is
+   false of the interest-bearing sources.  Closed witness, observed on the real hard
+   keeper (replay corpus/C09/witness_hard_overshare.json): one borrower of 1000 units,
+   borrow reward period 2265972/s from genesis + 2 s; one block 396076 s later hard
+   accrues interest on the TOTAL as an integer, so the normalised total
+   (total borrowed / borrow interest factor) is 999.895110119760281379 while the
+   borrower's recorded normalised borrow is still 1000: the accumulation credits
+   897586741694 of an emission of 897492593928.  There is no revalue and no bkava
+   accumulation in the history. *)
+Theorem C09_no_over_distribution_literal_refuted :
+  exists e t0 m0 gt0 tot0 ops d,
+  env_wf e /\ (forall p x, gt0 p = Some x -> x <= t0) /\ (forall p, 0 <= tot0 p) /\
+  forallb (fun o => negb (is_revalue o)) ops = true /\ forallb (fun o => negb (is_bkacc o)) ops = true /\
+  let st := run e (init t0 m0 gt0 tot0) ops in
+  pending e st 0%nat 0%nat = 897586741694 /\ emitted st 0%nat = 897492593928 /\
+  2 * sumN (nusers e) (fun u => pending e st u d + claimed st u d) * (PREC * PREC)
+  > 2 * emitted st d * (PREC * PREC) + accslack st d
+     + sumN (nusers e) (fun u => nsync st u d + Z.of_nat (npools e)) * (PREC * PREC + PREC).
+Proof.
+  exists (mk_env 1 1 1 [Some (mk_period 1704067202000000000 1710028802000000000 [2265972])] 1704067382000000000 false),
+         1704067200000000000, (fun _ => 0), (fun _ => Some 1704067200000000000), (fun _ => 0),
+         [Change 0 0 (1000 * PREC) (1000 * PREC); SetTotal 0 999895110119760281379; Block 1704463276000000000], 0%nat.
+  split; [|split; [|split; [|split; [|split]]]].
+  - constructor; intros p pd; destruct p as [|[|p]]; cbn; intros; try discriminate.
+    + match goal with H : Some _ = Some _ |- _ => inversion H; subst; cbn; lia end.
+    + match goal with H : Some _ = Some _ |- _ => inversion H; subst end.
+      unfold mk_period, p_rate, nthZ. destruct d as [|[|d]]; cbn; lia.
+  - intros p x H; inversion H; lia.
+  - intros p; lia.
+  - reflexivity.
+  - reflexivity.
+  - vm_compute. repeat split; reflexivity.
+Qed.
+Print Assumptions C09_no_over_distribution_literal_refuted.
+
+(* a position change of a user who holds shares synchronises the claim with the shares
+   RECORDED since the user's previous synchronisation -- in every source of this tree the
+   hook runs before the source touches the position, interest synchronisation included
+   (x/cdp: BeforeCDPModified precedes SynchronizeInterest; x/hard: Before*Modified precede
+   Sync*Interest) -- then records the new shares and total; the accrual between two
+   synchronisations of a user therefore uses the share recorded at the earlier one *)
+Theorem C09_change_synchronises_with_recorded_shares :
+  forall e st u p s' T' st', change e st u p s' T' = Ok st' tt -> sh st u p <> 0 ->
+  has_claim st u = true ->
+  (forall d, rew st' u d = rew st u d + sync_reward (g_idx st p d - u_idx st u p d) (sh st u p)
+             /\ u_idx st' u p d = g_idx st p d) /\
+  sh st' u p = s' /\ tot st' p = T' /\ g_idx st' = g_idx st /\
+  (forall v d, v <> u -> rew st' v d = rew st v d) /\
+  (forall v q, (v <> u \/ q <> p) -> sh st' v q = sh st v q /\ forall d, u_idx st' v q d = u_idx st v q d).
+Proof. exact change_spec. Qed.
+Print Assumptions C09_change_synchronises_with_recorded_shares.
+
+(** ** Revalue: shares that move without a hook call
+
+   staking: a third party's delegation to (or undelegation from) a slashed
+   validator moves the exchange rate of everybody's delegation shares, so the
+   tokens of the other delegators move by rounding without any hook being
+   called for them.  (A source that synchronised interest BEFORE calling the
+   hook would be in the same situation; x/cdp and x/hard of this tree call the
+   hook first.)  The module then pays (index difference since the user's
+   previous synchronisation) * (NEW shares): the accrual between the two
+   synchronisations uses the share seen at the LATER one. *)
+
+(* [drift] is exactly that: it moves only in a revalue of that user, by
+   (global - user index) * (new - old shares) *)
+Theorem C09_drift_meaning :
+  forall e st o st' u d, step e st o = Ok st' tt ->
+  drift st' u d = drift st u d
+    + match o with
+      | Revalue v p s' => if Nat.eqb u v then (g_idx st p d - u_idx st u p d) * (s' - sh st u p) else 0
+      | _ => 0
+      end.
+Proof. exact drift_step. Qed.
+Print Assumptions C09_drift_meaning.
+
+Theorem C09_no_revalue_no_drift :
+  forall e ops st u d, forallb (fun o => negb (is_revalue o)) ops = true ->
+  drift (run e st ops) u d = drift st u d.
+Proof. intros e ops st u d. exact (run_no_revalue e ops st u d). Qed.
+Print Assumptions C09_no_revalue_no_drift.
+
+(* a revalue moves the user's own synchronised reward by (index difference) *
+   (change of shares) within one rounding, and nobody else's (previous theorem) *)
+Theorem C09_revalue_moves_own_pending :
+  forall e st u p s' st' d, revalue e st u p s' = Ok st' tt ->
+  Z.abs ((pending e st' u d - pending e st u d) * (PREC * PREC)
+         - (g_idx st p d - u_idx st u p d) * (s' - sh st u p)) <= PREC * PREC + PREC.
+Proof. exact pending_revalue_bound. Qed.
+Print Assumptions C09_revalue_moves_own_pending.
+
+(** ** The bkava earn vaults: proportional split of the bkava reward period *)
+
+(* each vault's rate is rate * v / V within half a unit of the 18th decimal upward
+   and one and a half downward *)
+Theorem C09_bkava_split_pro_rata :
+  forall rate v V, 0 <= rate -> 0 <= v -> 0 < V ->
+  let q := bk_rate rate v V in
+  2 * (q * V) <= 2 * (rate * v) * PREC + V /\ 2 * (rate * v) * PREC - 3 * V <= 2 * (q * V).
+Proof. exact bk_rate_pro_rata. Qed.
+Print Assumptions C09_bkava_split_pro_rata.
+
+(* the parts never sum to more than the whole rate of the period (plus half a
+   unit of the 18th decimal per vault), for any set of vaults whose derivative
+   values add up to at most the total derivative value *)
+Theorem C09_bkava_split_sum :
+  forall rate V vs, 0 <= rate -> 0 < V -> Forall (fun v => 0 <= v) vs -> zsum vs <= V ->
+  2 * zsum (map (fun v => bk_rate rate v V) vs) <= 2 * rate * PREC + Z.of_nat (length vs).
+Proof. exact bk_split_sum. Qed.
+Print Assumptions C09_bkava_split_sum.
+
+(* and do not depend on the order in which the vault denoms are visited *)
+Theorem C09_bkava_split_order :
+  forall rate V vs vs', Permutation vs vs' ->
+  Permutation (map (fun v => bk_rate rate v V) vs) (map (fun v => bk_rate rate v V) vs').
+Proof. exact bk_split_order. Qed.
+Print Assumptions C09_bkava_split_order.
+
+(* one bkava accumulation: the accrual time advances to min(end, now); the index
+   moves by (staking rewards + proportional rate * whole seconds of the window
+   overlap) / total shares; the staking rewards arrive in the module account;
+   nothing else moves *)
+Theorem C09_bkava_accumulation :
+  forall e st p pd v V stk st', Inv e st -> bk_acc e st p pd v V stk = Ok st' tt ->
+  let dur := Z.max 0 (Z.min (now st) (p_end pd)
+                      - Z.max (match g_time st p with Some x => x | None => now st end) (p_start pd)) in
+  g_time st' p = Some (Z.min (p_end pd) (now st)) /\
+  (forall d, (d < ndenoms e)%nat ->
+     g_idx st' p d = g_idx st p d
+       + bk_increment (bk_rewards (bk_rate (p_rate pd d) v V) dur (stk d)) (tot st p) /\
+     macc st' d = macc st d + stk d) /\
+  (forall q d, q <> p -> g_idx st' q d = g_idx st q d /\ g_time st' q = g_time st q) /\
+  sh st' = sh st /\ tot st' = tot st /\ rew st' = rew st /\ u_idx st' = u_idx st /\ now st' = now st.
+Proof. exact bk_acc_spec. Qed.
+Print Assumptions C09_bkava_accumulation.
+
+(* ... and neither does the resulting state: accumulating two different bkava vaults
+   in either order gives the same indexes, accrual times and module account (the
+   keeper sorts the vault denoms -- C01's site table -- only to make the order of its
+   store writes deterministic) *)
+Theorem C09_bkava_accumulations_commute :
+  forall e st p q pd v1 v2 V stk1 stk2 st1 st2 st1' st2',
+  Inv e st -> p <> q ->
+  bk_acc e st p pd v1 V stk1 = Ok st1 tt -> bk_acc e st1 q pd v2 V stk2 = Ok st2 tt ->
+  bk_acc e st q pd v2 V stk2 = Ok st1' tt -> bk_acc e st1' p pd v1 V stk1 = Ok st2' tt ->
+  (forall r d, (d < ndenoms e)%nat -> g_idx st2 r d = g_idx st2' r d) /\
+  (forall r, g_time st2 r = g_time st2' r) /\
+  (forall d, (d < ndenoms e)%nat -> macc st2 d = macc st2' d) /\
+  sh st2 = sh st2' /\ tot st2 = tot st2' /\ rew st2 = rew st2' /\ u_idx st2 = u_idx st2' /\ now st2 = now st2'.
+Proof. exact bk_acc_commute. Qed.
+Print Assumptions C09_bkava_accumulations_commute.
+
+(* increment * total shares <= the rewards of the accumulation + total/2 (units 10^36) *)
+Theorem C09_bkava_increment_bound :
+  forall rw T, 0 <= rw -> 0 <= T ->
+  2 * (bk_increment rw T * T) <= 2 * bk_emitted rw T * PREC + (if 0 <? bk_emitted rw T then T else 0).
+Proof. exact bk_bound. Qed.
+Print Assumptions C09_bkava_increment_bound.
+
+(** ** Parameter changes in the middle of a history *)
+
+(* replacing the reward periods (rate, start, end changed; a period removed or
+   added) and the claim end changes no claim, no index, no accrual time and
+   nobody's synchronised reward *)
+Theorem C09_param_change_keeps_accrued_rewards :
+  forall xs pds cend xs', xstep xs (SetParams pds cend) = Ok xs' tt ->
+  x_st xs' = x_st xs /\
+  (forall u d, pending (x_env xs') (x_st xs') u d = pending (x_env xs) (x_st xs) u d) /\
+  nusers (x_env xs') = nusers (x_env xs) /\ npools (x_env xs') = npools (x_env xs) /\
+  ndenoms (x_env xs') = ndenoms (x_env xs).
+Proof. exact set_params_keeps_rewards. Qed.
+Print Assumptions C09_param_change_keeps_accrued_rewards.
+
+(* the invariant (hence every per-step theorem above), the exactness identity and
+   the emission bound hold along every history with parameter changes *)
+Theorem C09_invariant_all_histories_with_param_changes :
+  forall ops xs, XInv xs -> XInv (xrun xs ops).
+Proof. exact xrun_inv. Qed.
+Print Assumptions C09_invariant_all_histories_with_param_changes.
+
+Theorem C09_integral_exact_with_param_changes :
+  forall e t0 m0 gt0 tot0 ops u d, env_wf e -> (forall p x, gt0 p = Some x -> x <= t0) -> (forall p, 0 <= tot0 p) ->
+  let xs := xrun (mkX e (init t0 m0 gt0 tot0)) ops in
+  let st := x_st xs in
+  due st u d + phi (x_env xs) st u d = integral st u d + drift st u d /\
+  2 * Z.abs ((pending (x_env xs) st u d + claimed st u d) * (PREC * PREC) - (integral st u d + drift st u d))
+  <= (nsync st u d + Z.of_nat (npools (x_env xs))) * (PREC * PREC + PREC).
+Proof.
+  intros e t0 m0 gt0 tot0 ops u d W G GT xs st.
+  destruct (xrun_inv ops _ (xinit_inv e t0 m0 gt0 tot0 W G GT)) as [_ I _]. fold xs in I. fold st in I.
+  split; [apply (I_exact _ _ I)|apply pending_is_integral; exact I].
+Qed.
+Print Assumptions C09_integral_exact_with_param_changes.
+
+Theorem C09_no_over_distribution_with_param_changes :
+  forall e t0 m0 gt0 tot0 ops d, env_wf e -> (forall p x, gt0 p = Some x -> x <= t0) -> (forall p, 0 <= tot0 p) ->
+  let xs := xrun (mkX e (init t0 m0 gt0 tot0)) ops in
+  let e' := x_env xs in let st := x_st xs in
+  2 * sumN (nusers e') (fun u => pending e' st u d + claimed st u d) * (PREC * PREC)
+  <= 2 * emitted st d * (PREC * PREC) + 2 * emitted_x st d * PREC + accslack st d
+     + 2 * overshare st d + 2 * sumN (nusers e') (fun u => drift st u d)
+     + sumN (nusers e') (fun u => nsync st u d + Z.of_nat (npools e')) * (PREC * PREC + PREC).
+Proof.
+  intros e t0 m0 gt0 tot0 ops d W G GT xs e' st.
+  destruct (xrun_inv ops _ (xinit_inv e t0 m0 gt0 tot0 W G GT)) as [_ I V].
+  apply credited_le_emission; assumption.
+Qed.
+Print Assumptions C09_no_over_distribution_with_param_changes.
 
 (** ** Window *)
 
@@ -264,3 +530,56 @@ Example C09_nonvacuous :
 Proof.
   cbv zeta. repeat split; try (vm_compute; reflexivity).
 Qed.
+
+(** Non-vacuity of the revalue accounting: 10 shares of a total of 10 for 100 s at
+    1000/s, then the shares become 11 without a hook call (the total stays 10):
+    the unsynchronised 100000 becomes 110000 (drift 10000 per share), and the next
+    100 s credit 110000 of an emission of 100000 (overshare 10000). *)
+Example C09_revalue_nonvacuous :
+  let e := mk_env 1 1 1 [Some (mk_period 0 1000000000000 [1000])] 1000000000000 false in
+  let s0 := init 0 (fun _ => 1000000) (fun _ => Some 0) (fun _ => 0) in
+  let st1 := run e s0 [Change 0 0 (10 * PREC) (10 * PREC); Block 100000000000] in
+  let st2 := run e st1 [Revalue 0 0 (11 * PREC)] in
+  let st3 := run e st2 [Block 200000000000] in
+  inv_b e st3 = true /\
+  pending e st1 0%nat 0%nat = 100000 /\ pending e st2 0%nat 0%nat = 110000 /\
+  drift st2 0%nat 0%nat = 10000 * PREC * PREC /\
+  pending e st3 0%nat 0%nat = 220000 /\ emitted st3 0%nat = 200000 /\
+  overshare st3 0%nat = 10000 * PREC * PREC.
+Proof. cbv zeta. repeat split; vm_compute; reflexivity. Qed.
+
+(** Non-vacuity of the bkava accumulation: two vaults (5 and 3 shares), period from
+    50 s at 1000/s in denom 0; first accumulation at 100 s (no accrual time yet:
+    only the 7 staking rewards of vault 0 in denom 1 are distributed), second at
+    200 s with derivative values 30 and 60 of 100: 100 s * 300/s and 100 s * 600/s. *)
+Example C09_bkava_nonvacuous :
+  let e := mk_env 2 2 2 [None; None] 1000000000000 true in
+  let pd := mk_period 50000000000 1000000000000 [1000; 0] in
+  let ops := [Change 0 0 (5 * PREC) (5 * PREC); Change 1 1 (3 * PREC) (3 * PREC);
+              Block 100000000000; BkAcc 0 pd 30 100 [0; 7]; BkAcc 1 pd 70 100 [0; 0];
+              Block 200000000000; BkAcc 0 pd 30 100 [0; 0]; BkAcc 1 pd 60 100 [0; 5];
+              Claim 0 0 (Some PREC)] in
+  let st := run e (init 0 (fun _ => 1000000) (fun _ => None) (fun _ => 0)) ops in
+  inv_b e st = true /\
+  pending e st 0%nat 1%nat = 7 /\ pending e st 1%nat 0%nat = 60000 /\ pending e st 1%nat 1%nat = 5 /\
+  bal st 0%nat 0%nat = 30000 /\ emitted_x st 0%nat = 90000 * PREC /\ emitted_x st 1%nat = 12 * PREC /\
+  macc st 0%nat = 1000000 - 30000 /\ macc st 1%nat = 1000000 + 12.
+Proof. cbv zeta. repeat split; vm_compute; reflexivity. Qed.
+
+(** Non-vacuity of parameter changes: 100 s at 1000/s, the period is removed (the
+    next 100 s accrue nothing and the accrual time goes stale), then re-added with
+    start 150 s and rate 2000/s: the block at 300 s counts [150 s, 300 s]; an
+    invalid period (end before start) is refused and changes nothing. *)
+Example C09_param_change_nonvacuous :
+  let e := mk_env 1 1 1 [Some (mk_period 0 1000000000000 [1000])] 1000000000000 false in
+  let s0 := init 0 (fun _ => 1000000) (fun _ => Some 0) (fun _ => 0) in
+  let xs1 := xrun (mkX e s0) [O (Change 0 0 (10 * PREC) (10 * PREC)); O (Block 100000000000); SetParams [None] 5] in
+  let xs2 := xrun xs1 [O (Block 200000000000)] in
+  let xs3 := xrun xs2 [SetParams [Some (150000000000, 1000000000000, [2000])] 1000000000000; O (Block 300000000000)] in
+  let xs4 := xrun xs3 [SetParams [Some (5, 4, [1])] 0] in
+  pending (x_env xs1) (x_st xs1) 0%nat 0%nat = 100000 /\ claim_end (x_env xs1) = 5 /\
+  pending (x_env xs2) (x_st xs2) 0%nat 0%nat = 100000 /\
+  pending (x_env xs3) (x_st xs3) 0%nat 0%nat = 100000 + 300000 /\
+  inv_b (x_env xs3) (x_st xs3) = true /\
+  xstep xs3 (SetParams [Some (5, 4, [1])] 0) = Err /\ claim_end (x_env xs4) = 1000000000000.
+Proof. cbv zeta. repeat split; vm_compute; reflexivity. Qed.
